@@ -91,6 +91,22 @@ def snapshot(root: Path):
     return snap
 
 
+_QUOTED = re.compile(r"'([^'\n]+)'")
+
+
+def mentioned(out: str, root: Path, cwd: Path):
+    """Files annotate talks about on stdout (errors, skips): they were
+    examined even though they were not modified."""
+    res = set()
+    for m in _QUOTED.finditer(out):
+        p = m.group(1)
+        q = Path(p) if os.path.isabs(p) else cwd / p
+        if os.path.lexists(q):
+            r = os.path.relpath(q, root)
+            res.add(r[: -len(".license")] if r.endswith(".license") and os.path.lexists(root / r[: -len(".license")]) else r)
+    return res
+
+
 _LINTFILE = re.compile(r"^(.*): (no license identifier|no copyright notice|read error|missing license .*)$")
 
 
@@ -177,7 +193,7 @@ def check_tree(ctx, case):
                         obs.add(p[: -len(".license")])
                     else:
                         obs.add(p)
-            judge(obs, "annotate -r .")
+            judge(obs | mentioned(res.out, copy, copy), "annotate -r .")
         # 5. annotate -r on chosen sub-directories (including excluded ones: LICENSES/, .reuse/, ignored
         #    directories, subprojects, submodules): only the covered files below them may change
         alldirs = sorted({"/".join(p.split("/")[:i]) for p in verdicts for i in range(1, p.count("/") + 1)})
@@ -200,6 +216,7 @@ def check_tree(ctx, case):
                             obs.add(p)
                 below = lambda p: any(p.startswith(d + "/") for d in chosen)  # noqa: E731
                 want = {p for p in cov if below(p)}
+                obs |= mentioned(res.out, copy2, copy2)
                 obs -= unspec
                 if obs != want:
                     why = {p: verdicts.get(p, ("?", "not-in-tree")) for p in sorted(obs ^ want)}
